@@ -3,14 +3,17 @@ stays bounded, every ingested item has exactly one fate, toxic items are never r
 and reach on_toxic at most once."""
 import ast
 import dataclasses
+import heapq
 import datetime as _dt
 import itertools
 import logging
 import random
+import sys
 import threading
 import time
 
 from . import common
+from . import sched
 from .common import Check, Violation, cz, cbool, clist, copt, czl
 
 SRC = "operon_ai/organelles/lysosome.py"
@@ -267,6 +270,34 @@ def valnum(v):
     return -1
 
 
+class DiagLock(sched.SchedLock):
+    """SchedLock that remembers who waits for what, and photographs all locks when a deadlock is declared
+    (before any blocked thread unwinds and releases what it holds)."""
+
+    def __init__(self, s, reentrant, name, info):
+        super().__init__(s, reentrant, name)
+        self.info = info                      # {"locks": [DiagLock], "wants": {tid: lock name}, "snap": None | dict}
+        info["locks"].append(self)
+
+    def acquire(self, blocking=True, timeout=-1):
+        tid = self.sched.current_tid()
+        if tid is not None:
+            self.info["wants"][tid] = self.name
+        try:
+            r = super().acquire(blocking, timeout)
+        except sched.Deadlock:
+            if self.info.get("snap") is None:
+                self.info["snap"] = {"blocked_on": dict(self.info["wants"]),
+                                     "owners": {l.name: (l.owner, l.count) for l in self.info["locks"]}}
+            raise
+        if tid is not None:
+            self.info["wants"].pop(tid, None)
+        return r
+
+    def __enter__(self):
+        return self.acquire()
+
+
 class Rig:
     """One Lysosome on a virtual clock with scripted digesters and an on_toxic log."""
 
@@ -307,6 +338,7 @@ class Rig:
         self.types = {}         # id -> type index
         self.calls = []         # (id, "dg"|"cb", raised)   every digester / on_toxic call, in order
         self.toxlog = []
+        self.recycle_expected = []   # (id, keys) of digester results handed back to digest()
         self.wt = [L.WasteType.MISFOLDED_PROTEIN, L.WasteType.EXPIRED_CACHE, L.WasteType.FAILED_OPERATION,
                    L.WasteType.ORPHANED_RESOURCE, L.WasteType.TOXIC_BYPRODUCT]
 
@@ -316,6 +348,8 @@ class Rig:
             self.calls.append((i, "dg", out is None))
             if out is None:
                 raise RuntimeError(f"boom {i}")
+            if sys._getframe(1).f_code.co_name == "digest":
+                self.recycle_expected.append((i, list(out)))
             return {f"k{k}": i for k in out}
 
         def on_toxic(waste):
@@ -399,10 +433,11 @@ class C13(Check):
                   "to the code by evaluating it in Coq on every generated history the implementation ran.")
     LEVEL_NOTE = ("Trusts: Coq kernel+VM; the correspondence harness; the ast translator of the lock structure; CPython's `with "
                   "lock` mutual exclusion; digesters/on_toxic return or raise Exception and do not block or re-enter. Two-thread "
-                  "runs on real threads are validation, not proof. Axioms: none (Print Assumptions: closed under the global context).")
+                  "runs (random real-thread runs and the systematic scheduler exploration) are validation, not proof. Axioms: none (Print Assumptions: closed under the global context).")
     TECHNIQUE = ("Coq invariant proof by induction over histories with ghost fates; ast translator + reflective check of the lock "
                  "call graph + abstract lock-machine deadlock-freedom theorem; vm_compute correspondence against Lysosome on a "
-                 "virtual clock with a watchdog per call; real two-thread stress runs under a watchdog")
+                 "virtual clock with a watchdog per call; real two-thread stress runs under a watchdog; systematic preemption-bounded "
+                 "schedule exploration of two real threads under a deterministic scheduler (deadlock detection on all locks)")
     TRUSTED = ["translator harness/c13.py:lock_structure (Python ast -> lock kind + per-method lock/call structure, fail closed)",
                "modelled not verified: `with self._lock` gives mutual exclusion, an RLock may be re-acquired by its holder and a "
                "Lock may not; one source line of the modelled methods executes atomically (counter += 1 outside the lock in digest)",
@@ -627,7 +662,7 @@ class C13(Check):
         return "Raises" if o is None else f"(Ok {czl(o)})"
 
     def coq_case(self, case):
-        if "two_threads" in case:          # replay of a two-thread finding: nothing for the sequential model to run
+        if "two_threads" in case or "sched" in case:          # replay of a two-thread finding: nothing for the sequential model to run
             return "(mkConfig 0 0 0 false, [])"
         cfg = case["cfg"]
         ops = []
@@ -778,7 +813,7 @@ class C13(Check):
         return ks
 
     def shrink(self, case, pred):
-        if "two_threads" in case:
+        if "two_threads" in case or "sched" in case:
             return case
         ops = common.shrink_list(case["ops"], lambda xs: len(xs) > 0 and pred({**case, "ops": xs}), max_rounds=60)
         return {**case, "ops": ops}
@@ -808,6 +843,50 @@ class C13(Check):
                 i += 1            # ids are reserved per slot whether or not the op ingests
             ths.append(ops)
         return {"cfg": cfg, "pre": pre, "threads": ths, "delay_us": [rng.choice([0, 0, 20, 50, 100, 200]) for _ in range(2)]}
+
+    def _final_check(self, rig, cfg, rets, n_ing, desc):
+        """the monitor's invariants on the quiescent final state of a multi-thread run -> None | Violation"""
+        lys = rig.lys
+        q = rig.queue_ids()
+        st = lys.get_statistics()
+        if cfg["max"] >= 2 and len(q) > cfg["max"]:
+            return Violation("C13/queue-unbounded", f"{desc}: queue holds {len(q)} > {cfg['max']}")
+        per = {}
+        for (cid, kind, raised) in rig.calls:
+            per.setdefault(cid, []).append((kind, raised))
+        for cid, cs in per.items():
+            if len(cs) > 1:
+                sig = "C13/toxic-callback" if cs[0][0] == "cb" else "C13/conservation"
+                return Violation(sig, f"{desc}: item {cid} processed {len(cs)} times")
+            if cid in q:
+                return Violation("C13/conservation", f"{desc}: item {cid} processed and still queued")
+        n_ok = sum(1 for cs in per.values() if not cs[0][1])
+        n_raise = sum(1 for cs in per.values() if cs[0][1])
+        n_exp = sum(r for rr in rets for (o, r) in rr if o[0] == "auto")
+        n_rep = sum(len(r.errors) for rr in rets for (o, r) in rr if o[0] == "digest")
+        n_disp = sum(r.disposed for rr in rets for (o, r) in rr if o[0] == "digest")
+        if len(set(q)) != len(q) or st["queue_size"] != len(q):
+            return Violation("C13/conservation", f"{desc}: queue {q} / queue_size {st['queue_size']}")
+        if st["total_ingested"] != n_ing or st["total_digested"] != n_ok or n_rep > n_raise or n_disp > n_ok:
+            return Violation("C13/conservation", f"{desc}: statistics {st} but {n_ing} ingests, {n_ok} digesters returned, "
+                                                 f"{n_raise} raised ({n_rep} reported), disposed {n_disp}")
+        if n_ing != len(q) + n_ok + n_raise + n_exp:
+            return Violation("C13/conservation", f"{desc}: {n_ing} ingested != {len(q)} queued + {n_ok} digested + {n_raise} errors + {n_exp} expired")
+        for v in set().union(*[refs(x) for x in lys.get_recycled().values()]) if lys.get_recycled() else []:
+            if rig.types.get(v) == TOXIC:
+                return Violation("C13/toxic-recycled", f"{desc}: recycling bin refers to sensitive item {v}")
+        # the counter and bin updates digest() makes outside the lock: nothing lost
+        want_rec = sum(1 for (_i, ks) in rig.recycle_expected if ks)
+        if st["total_recycled"] != want_rec:
+            return Violation("C13/lost-update", f"{desc}: total_recycled {st['total_recycled']} != {want_rec} non-empty digester results handed to digest()")
+        producers = {}
+        for (i, ks) in rig.recycle_expected:
+            for k in ks:
+                producers.setdefault(f"k{k}", set()).add(i)
+        binraw = lys.get_recycled()
+        if set(binraw) != set(producers) or any(binraw[k] not in producers[k] for k in binraw):
+            return Violation("C13/lost-update", f"{desc}: recycling bin {binraw} but digest() received keys from {producers}")
+        return None
 
     def run_threads(self, tc):
         """-> None | Violation.  Final-state check of the monitor's invariants."""
@@ -854,37 +933,144 @@ class C13(Check):
                                              f"auto_digest_threshold={cfg['thr']}: not all calls returned within the watchdog time")
             except Exception as e:
                 return Violation("C13/raises", f"two threads {tc['threads']}: a call raised {type(e).__name__}: {e}")
-            q = rig.queue_ids()
-            st = lys.get_statistics()
-            if cfg["max"] >= 2 and len(q) > cfg["max"]:
-                return Violation("C13/queue-unbounded", f"two threads {tc['threads']}: queue holds {len(q)} > {cfg['max']}")
-            per = {}
-            for (cid, kind, raised) in rig.calls:
-                per.setdefault(cid, []).append((kind, raised))
-            for cid, cs in per.items():
-                if len(cs) > 1:
-                    sig = "C13/toxic-callback" if cs[0][0] == "cb" else "C13/conservation"
-                    return Violation(sig, f"two threads {tc['threads']}: item {cid} processed {len(cs)} times")
-                if cid in q:
-                    return Violation("C13/conservation", f"two threads {tc['threads']}: item {cid} processed and still queued")
-            n_ok = sum(1 for cs in per.values() if not cs[0][1])
-            n_raise = sum(1 for cs in per.values() if cs[0][1])
-            n_exp = sum(r for rr in rets for (o, r) in rr if o[0] == "auto")
-            n_rep = sum(len(r.errors) for rr in rets for (o, r) in rr if o[0] == "digest")
-            n_disp = sum(r.disposed for rr in rets for (o, r) in rr if o[0] == "digest")
-            if len(set(q)) != len(q) or st["queue_size"] != len(q):
-                return Violation("C13/conservation", f"two threads {tc['threads']}: queue {q} / queue_size {st['queue_size']}")
-            if st["total_ingested"] != n_ing or st["total_digested"] != n_ok or n_rep > n_raise or n_disp > n_ok:
-                return Violation("C13/conservation", f"two threads {tc['threads']}: statistics {st} but {n_ing} ingests, {n_ok} digesters returned, "
-                                                     f"{n_raise} raised ({n_rep} reported), disposed {n_disp}")
-            if n_ing != len(q) + n_ok + n_raise + n_exp:
-                return Violation("C13/conservation", f"two threads {tc['threads']}: {n_ing} ingested != {len(q)} queued + {n_ok} digested + {n_raise} errors + {n_exp} expired")
-            for v in set().union(*[refs(x) for x in lys.get_recycled().values()]) if lys.get_recycled() else []:
-                if rig.types.get(v) == TOXIC:
-                    return Violation("C13/toxic-recycled", f"two threads {tc['threads']}: recycling bin refers to sensitive item {v}")
-            return None
+            return self._final_check(rig, cfg, rets, n_ing, f"two threads {tc['threads']}")
         finally:
             rig.close()
+
+
+    # -- two threads under the deterministic scheduler (systematic, still validation) ----------
+    SCHED_PROGRAMS = [
+        # thread A: digest() with an item queued; thread B: two ingests, the second reaches the threshold
+        {"cfg": {"max": 8, "thr": 2, "ret": 1, "cb": True}, "pre": 1,
+         "threads": [[["digest", None]], [["ingest", 0, 0, [0]], ["isens", []]]]},
+        # A: digest(1) leaves one item; B: ingests up to the threshold while A is inside its pass
+        {"cfg": {"max": 8, "thr": 3, "ret": 1, "cb": True}, "pre": 2,
+         "threads": [[["digest", 1]], [["isens", None], ["ingest", 1, 0, [1]]]]},
+        # capacity: both threads ingest into a full queue (emergency digest, raising digester), one digests
+        {"cfg": {"max": 2, "thr": 9, "ret": 1, "cb": True}, "pre": 2,
+         "threads": [[["ingest", 3, 0, None], ["digest", None]], [["isens", []], ["ingest", 0, 0, [0]]]]},
+        # threshold == capacity, autophagy expiring everything (retention 0) against ingest + digest(1)
+        {"cfg": {"max": 3, "thr": 3, "ret": 0, "cb": True}, "pre": 2,
+         "threads": [[["isens", []], ["auto"]], [["ingest", 0, 0, [0, 1]], ["digest", 1]]]},
+        # threshold 1: every ingest digests
+        {"cfg": {"max": 4, "thr": 1, "ret": 1, "cb": True}, "pre": 0,
+         "threads": [[["ingest", 0, 0, [0]]], [["isens", None], ["digest", None]]]},
+        # two digest passes side by side: colliding keys, the unlocked counter / bin updates
+        {"cfg": {"max": 8, "thr": 9, "ret": 1, "cb": True}, "pre": 4,
+         "threads": [[["digest", 2]], [["digest", None], ["ingest", 2, 0, [0]]]]},
+    ]
+
+    def run_sched(self, tc, prefix):
+        """One execution of the two-thread program `tc` under harness/sched.py following the schedule
+        `prefix` (then non-preemptively) -> (None | Violation, scheduler)."""
+        cfg = tc["cfg"]
+        rig = Rig(cfg)
+        lys = rig.lys
+        state = {"last": None}
+
+        def choose(step, enabled):
+            if step < len(prefix) and prefix[step] in enabled:
+                c = prefix[step]
+            elif state["last"] in enabled:
+                c = state["last"]              # no preemption beyond the prefix
+            else:
+                c = enabled[0]
+            state["last"] = c
+            return c
+
+        s = sched.Scheduler((SRC,), choose)
+        try:
+            nid = 0
+            for _ in range(tc["pre"]):
+                rig.do(["ingest", 0, 0, [0]], nid)()
+                nid += 1
+            # EVERY lock the object owns becomes a scheduler-aware lock of the same reentrancy
+            info = {"locks": [], "wants": {}, "snap": None}
+            for k, v in list(vars(lys).items()):
+                if type(v).__name__ in ("lock", "RLock"):
+                    setattr(lys, k, DiagLock(s, type(v).__name__ == "RLock", k, info))
+            fns, rets, errs = [], [[] for _ in tc["threads"]], []
+            n_ing = tc["pre"]
+            for tid, ops in enumerate(tc["threads"]):
+                row = []
+                for o in ops:
+                    row.append((o, rig.do(o, nid)))
+                    n_ing += 1 if is_ingest(o) else 0
+                    nid += 1
+
+                def run(tid=tid, row=row):
+                    for (o, fn) in row:
+                        try:
+                            rets[tid].append((o, fn()))
+                        except sched.Deadlock:
+                            raise
+                        except Exception as e:  # noqa
+                            errs.append((tid, o, f"{type(e).__name__}: {e}"))
+                            return
+                fns.append(run)
+            try:
+                common.call_with_watchdog(lambda: s.run(fns), 20.0)
+            except common.Hang:
+                return Violation("C13/hang", f"scheduled threads {tc['threads']}: the run did not finish (a thread blocks on "
+                                             f"something the scheduler does not control); schedule prefix {prefix}"), s
+            chosen = [c for c, _ in s.trace if c is not None]
+            desc = (f"threads {tc['threads']} after {tc['pre']} ingests on max_queue_size={cfg['max']} "
+                    f"auto_digest_threshold={cfg['thr']}, schedule {chosen}")
+            if s.deadlock:
+                snap = info.get("snap") or {}
+                return Violation("C13/deadlock", f"{desc}: no thread can run: thread -> lock it waits for {snap.get('blocked_on')}, "
+                                                 f"lock -> (owner thread, hold count) {snap.get('owners')}; "
+                                                 f"calls returned so far per thread {[len(r) for r in rets]}"), s
+            if errs or s.errors:
+                return Violation("C13/raises", f"{desc}: {errs} {dict((k, repr(v)) for k, v in s.errors.items())}"), s
+            for tid, ops in enumerate(tc["threads"]):
+                if len(rets[tid]) != len(ops):
+                    return Violation("C13/hang", f"{desc}: thread {tid} returned from {len(rets[tid])} of {len(ops)} calls"), s
+            return self._final_check(rig, cfg, rets, n_ing, desc), s
+        finally:
+            rig.close()
+
+    @staticmethod
+    def _preemptions(cand, trace):
+        n = 0
+        for i in range(1, len(cand)):
+            if cand[i] != cand[i - 1] and i < len(trace) and cand[i - 1] in trace[i][1]:
+                n += 1
+        return n
+
+    def explore_sched(self, tc, bound, max_runs):
+        """stateless search over schedules, fewest preemptions first, up to `bound` preemptions and
+        `max_runs` executions -> (runs, distinct schedules, first (Violation, schedule) or None, exhausted)"""
+        heap, tick = [(0, 0, [])], 1
+        runs, seen, first = 0, set(), None
+        while heap and runs < max_runs:
+            _p, _t, prefix = heapq.heappop(heap)
+            v, s = self.run_sched(tc, prefix)
+            runs += 1
+            chosen = [c for c, _ in s.trace if c is not None]
+            if tuple(chosen) in seen:
+                continue
+            seen.add(tuple(chosen))
+            if v is not None:
+                first = (v, chosen)
+                break
+            for i in range(len(prefix), len(s.trace)):
+                c, enabled = s.trace[i]
+                if c is None:
+                    continue
+                for alt in enabled:
+                    if alt != c:
+                        cand = chosen[:i] + [alt]
+                        p = self._preemptions(cand, s.trace)
+                        if p <= bound:
+                            heapq.heappush(heap, (p, tick, cand))
+                            tick += 1
+        return runs, len(seen), first, not heap
+
+    def _sched_program(self, rng):
+        tc = self._thread_case(rng)
+        tc.pop("delay_us", None)
+        return tc
 
     def extra_checks(self):
         rng = random.Random(f"C13:threads:{self.seed}")
@@ -907,8 +1093,49 @@ class C13(Check):
         self.extra_cov["two_thread_runs"] = ran
         self.extra_cov["two_thread_failures"] = bad
         self.extra_cov["two_thread_note"] = "real threads, random pre-fill and start offsets, final-state monitor; validation, not proof"
+        self._sched_checks()
+
+    def _sched_checks(self):
+        """systematic two-thread exploration under harness/sched.py (yield at every acquire/release of every lock of
+        the object and at every lysosome.py line executed while holding none of them)"""
+        rng = random.Random(f"C13:sched:{self.seed}")
+        quick = self.tier == "quick"
+        bound, per = (2, 150) if quick else (3, 400)
+        progs = [dict(p) for p in self.SCHED_PROGRAMS] + [self._sched_program(rng) for _ in range(1 if quick else 16)]
+        total = distinct = bad = exhausted = skipped = 0
+        t_end = time.time() + (60 if quick else 300)       # wall guard on a loaded machine; reported when it bites
+        for tc in progs:
+            if time.time() > t_end:
+                skipped += 1
+                continue
+            runs, nseen, first, done = self.explore_sched(tc, bound, per)
+            total += runs
+            distinct += nseen
+            exhausted += 1 if done else 0
+            if first is not None:
+                v, schedule = first
+                bad += 1
+                v.case = {"sched": {"program": tc, "schedule": schedule}}
+                self.violations.append(v)
+                if bad >= 2:
+                    break
+        self.extra_cov["sched_programs"] = len(progs)
+        self.extra_cov["sched_runs"] = total
+        self.extra_cov["sched_distinct_schedules"] = distinct
+        self.extra_cov["sched_programs_exhausted_within_bound"] = exhausted
+        self.extra_cov["sched_preemption_bound"] = bound
+        self.extra_cov["sched_failures"] = bad
+        self.extra_cov["sched_programs_skipped_by_wall_guard"] = skipped
+        if skipped:
+            self.notes.append(f"scheduled two-thread exploration: {skipped} program(s) skipped by the wall-clock guard")
+        self.extra_cov["sched_note"] = ("2 real threads x 1-3 calls under the deterministic scheduler, every lock attribute of the object "
+                                        "instrumented, fewest-preemptions-first stateless search; per schedule: no deadlock, every call "
+                                        "returned, final-state invariants; validation, not proof")
 
     def _safe_impl(self, case):
+        if "sched" in case:
+            v, _s = self.run_sched(case["sched"]["program"], case["sched"]["schedule"])
+            return [[0, 0, 0, 0] if v is None else [-999]], {"two_threads": True, "v": v}
         if "two_threads" in case:
             v = self.run_threads(case["two_threads"])
             return [[0, 0, 0, 0] if v is None else [-999]], {"two_threads": True, "v": v}
